@@ -84,7 +84,7 @@ func VP_C08_coalesce() {
 	vpExpectPackets(tr, types, bodies, "coalesce")
 }
 
-//vp:property C08 C06
+//vp:property C08 C06 C10
 //vp:bounds one 5000-byte packet (symbolic type; symbolic first, middle, last payload bytes, rest constant) delivered in exactly two reads cut at 100, 3000, 4095, 4096 (first fragment fits the 4096-byte scratch buffer, the whole packet does not)
 func VP_C08_split2_big() {
 	body := make([]byte, 4992)
